@@ -109,13 +109,15 @@ package main
 //@ ufun $denyAt(int) string
 //@ ufun $deniedUpTo(int, string) bool
 //@ axiom denied-by-none: forall(s, string, !$deniedUpTo(0, s))
-//@ axiom denied-step: forall(n, int, forall(s, string, n >= 1 ==> ($deniedUpTo(n, s) == ($deniedUpTo(n - 1, s) || $reMatch("^(?:" + $denyAt(n - 1) + ")$", s)))))
+// (the step axioms are instantiated only where the list element $denyAt(n-1) is spoken of as well:
+// without that trigger every instance creates the next smaller one, a matching loop)
+//@ axiom denied-step: forall(n, int, forall(s, string, $trigger(n >= 1 ==> ($deniedUpTo(n, s) == ($deniedUpTo(n - 1, s) || $reMatch("^(?:" + $denyAt(n - 1) + ")$", s))), $deniedUpTo(n, s), $denyAt(n - 1))))
 // allow direction (soundness): when an allow list is given, every tag of the result matches - as a
 // whole - one of its expressions ($allowAt / $allowedUpTo: the same vocabulary for the allow list).
 //@ ufun $allowAt(int) string
 //@ ufun $allowedUpTo(int, string) bool
 //@ axiom allowed-by-none: forall(s, string, !$allowedUpTo(0, s))
-//@ axiom allowed-step: forall(n, int, forall(s, string, n >= 1 ==> ($allowedUpTo(n, s) == ($allowedUpTo(n - 1, s) || $reMatch("^(?:" + $allowAt(n - 1) + ")$", s)))))
+//@ axiom allowed-step: forall(n, int, forall(s, string, $trigger(n >= 1 ==> ($allowedUpTo(n, s) == ($allowedUpTo(n - 1, s) || $reMatch("^(?:" + $allowAt(n - 1) + ")$", s))), $allowedUpTo(n, s), $allowAt(n - 1))))
 //@ func filterList(ad, in) (out, err)
 //@   prop C18
 //@   entry-assume $arr(ad.Deny) != $arr(in) && $arr(ad.Deny) >= 0 && $arr(in) >= 0 && $arr(ad.Allow) != $arr(in) && $arr(ad.Allow) >= 0
